@@ -247,6 +247,7 @@ class Ctx(object):
             self.notes.append(
                 "listed known finding no longer reproduces (fixed upstream?): {}".format(k)
             )
+        os.makedirs(self.evidence_dir, exist_ok=True)
         replay = os.path.join(self.evidence_dir, "{}.violations.json".format(self.prop))
         if unlisted:
             with open(replay, "wt") as f:
